@@ -341,6 +341,10 @@ def gen_helper(world, rng, insts, target, hkind=None, validity="valid", inplace=
         for n in chosen:
             tk = attrs[n][1].tk
             op["kwargs"][n] = ["fn", rng.choice(cg.TRANSFORMS_FOR[tk])]
+        if rng.random() < 0.2:
+            # whole-instance transform that hands back its input, combined with attribute transforms
+            op["args"] = [["fn", "same"]]
+            op["form"] = f"fn+kw{len(chosen)}"
         if validity == "raising_cb":
             op["kwargs"][chosen[-1]] = ["fn", "boom"]
         elif validity == "nonconf":
@@ -429,7 +433,12 @@ def gen_helper(world, rng, insts, target, hkind=None, validity="valid", inplace=
             return op
         if hkind == "transform_attr":
             op["name"] = f"transform_{n}"
-            if t.kind == "spec" and rng.random() < 0.5:
+            if t.kind == "spec" and rng.random() < 0.2:
+                # whole-value transform that hands back its input + per-attribute transforms
+                op["args"] = [["fn", rng.choice(["same", "ident_copy"])]]
+                op["kwargs"]["v"] = ["fn", "inc"]
+                op["form"] = "fn+attr_transforms"
+            elif t.kind == "spec" and rng.random() < 0.5:
                 op["kwargs"]["v"] = ["fn", "inc"]
                 op["form"] = "attr_transforms"
             else:
